@@ -7,7 +7,7 @@
 use std::{
     collections::HashMap,
     hash::{BuildHasher, Hash},
-    time::{Duration, Instant},
+    time::{Duration, Instant, SystemTime},
 };
 
 #[cfg(feature = "serde1")]
@@ -18,6 +18,18 @@ pub mod serde;
 /// timeouts beyond its range (about 2.2 years); deadlines further away than this are enforced late
 /// rather than crashing the task that tracks them.
 pub(crate) const MAX_DEADLINE_TIMEOUT: Duration = Duration::from_secs(86_400 * 365);
+
+/// Renders a deadline as the wall-clock timestamp recorded in the RPC span. A deadline beyond what
+/// `SystemTime` or RFC 3339 (year 9999) can represent is rendered as the latest representable time
+/// instead of panicking in whichever task creates the span.
+pub(crate) fn format_deadline(deadline: Instant) -> humantime::Rfc3339Timestamp {
+    // 9999-12-31T23:59:59Z
+    let max = SystemTime::UNIX_EPOCH + Duration::from_secs(253_402_300_799);
+    let deadline = SystemTime::now()
+        .checked_add(deadline.time_until())
+        .map_or(max, |t| t.min(max));
+    humantime::format_rfc3339(deadline)
+}
 
 /// Extension trait for [Instants](Instant) in the future, i.e. deadlines.
 pub trait TimeUntil {
